@@ -172,7 +172,12 @@ theorem run_shape (ρ : List FunDef) : ∀ (f : Nat) (j : Job) (s : St), (run ρ
       | assignDecl x e =>
         simp only [run]
         refine bnd_shape _ _ _ (ih _ _) (fun l t ht => ?_)
-        refine bnd_shape _ _ _ (by rw [shape_cloneIfNecessary, ht]) (fun l2 t2 ht2 => ?_)
+        have htag : (tagParamAlias e t l).shape = t.shape := by
+          unfold tagParamAlias
+          split
+          · split <;> rfl
+          · rfl
+        refine bnd_shape _ _ _ (by rw [shape_cloneIfNecessary, htag, ht]) (fun l2 t2 ht2 => ?_)
         split
         · rename_i h; rw [shape_addObject _ _ _ _ h]; simp [ht2]
         · simp [ht2]
